@@ -21,6 +21,8 @@ type vfPairOpt struct {
 	KeepOpen bool
 	Prepare  func(sim *vfStream, cli, srv *Conn)
 	SrvAddr  string // address of the server end (the client's session cache is keyed by it)
+	// InPlace exists for parity with the datagram stack's runner (this one never clones the configurations).
+	InPlace bool
 }
 
 type vfPair struct {
